@@ -32,7 +32,7 @@ def floors(tier):
     return {"evaluations": 500 if q else 10000, "distinct_nontrivial": 120 if q else 2500, "pairs_checked": 800 if q else 16000,
             "expected_edges": 200 if q else 4000, "expected_no_edge": 400 if q else 8000, "isa:x86": 1, "isa:aarch64": 1,
             "with_bump": 150 if q else 3000, "with_index": 60 if q else 1200, "with_copy": 30 if q else 600, "killed_by_store": 10 if q else 200,
-            "kind:synth": 250 if q else 5000, "kind:curated": 200 if q else 4000, "a64_writeback_between": 15 if q else 300, "bump_copy_bump": 25 if q else 500, "multi_destination_store": 40 if q else 800}
+            "kind:synth": 250 if q else 5000, "kind:curated": 200 if q else 4000, "a64_writeback_between": 15 if q else 300, "bump_copy_bump": 25 if q else 500, "symbolic_displacement": 20 if q else 400, "multi_destination_store": 40 if q else 800}
 
 
 def plan(tier, seed):
@@ -74,7 +74,8 @@ def stl_kernel(rng, isa, vocab, curated=False):
 
     base, other, third = areg(addr[0]), areg(addr[1]), areg(addr[2])
     tags = set()
-    sm = {"base": base, "index": None, "scale": 1, "disp": None, "pre": False, "post": False, "post_val": None}
+    sm = {"base": base, "index": None, "scale": 1, "disp": None, "pre": False, "post": False, "post_val": None, "sym": None}
+    symbolic = isa == "x86" and rng.random() < 0.1
     r = rng.random()
     step = 8
     if r < 0.25:
@@ -87,6 +88,11 @@ def stl_kernel(rng, isa, vocab, curated=False):
         if isa == "x86" and rng.random() < 0.6:
             sm["disp"] = rng.choice([8, 16, -8])
         tags.add("with_index")
+    if symbolic:
+        # symbolic displacement (global array addressed through a register): sym(%base[,%index,scale])
+        sm["disp"] = None
+        sm["sym"] = rng.choice(["gvar", "tbl_a"])
+        tags.add("symbolic_displacement")
     if isa == "aarch64" and not sm["index"] and rng.random() < 0.08:
         if rng.random() < 0.5:
             sm["disp"] = sm["disp"] or 16
@@ -164,7 +170,7 @@ def stl_kernel(rng, isa, vocab, curated=False):
         elif k < 0.87 and isa == "aarch64":
             # a pre/post-indexed access in between moves the base by a constant
             lf = rng.choice([f for f in loads if not any(o.get("noindex") and False for o in f["ops"])])
-            m2 = {"base": base, "index": None, "scale": 1, "disp": None, "pre": False, "post": False, "post_val": None}
+            m2 = {"base": base, "index": None, "scale": 1, "disp": None, "pre": False, "post": False, "post_val": None, "sym": None}
             if rng.random() < 0.5:
                 m2["disp"], m2["pre"] = rng.choice([8, 16]), True
                 if delta.get(base):
@@ -193,7 +199,15 @@ def stl_kernel(rng, isa, vocab, curated=False):
         want = saddr - (st[1] if st else 0)
         if sm["index"] and delta.get(other):
             want -= delta[other][1] * sm["scale"]
-        lm = {"base": lb, "index": sm["index"], "scale": sm["scale"], "disp": want, "pre": False, "post": False, "post_val": None}
+        lm = {"base": lb, "index": sm["index"], "scale": sm["scale"], "disp": want, "pre": False, "post": False, "post_val": None, "sym": None}
+        if symbolic:
+            # same symbol (provably equal only when nothing moved the registers), another symbol, or no symbol at all
+            lm["disp"] = None
+            lm["sym"] = rng.choice([sm["sym"], sm["sym"], "tbl_b", None])
+            if lm["sym"] is None:
+                lm["disp"] = rng.choice([None, 8])
+            if lm["sym"] != sm["sym"]:
+                near = True
         if how == "off8":
             lm["disp"] = want + rng.choice([8, -8])
         elif how == "off1":
@@ -212,6 +226,8 @@ def stl_kernel(rng, isa, vocab, curated=False):
                 lm["index"], lm["scale"] = None, 1
         if lm["disp"] == 0 and rng.random() < 0.5:
             lm["disp"] = None
+        if lm.get("sym"):
+            lm["disp"] = None  # a symbolic displacement is written without a numeric one
         if lm["index"] and any(o.get("noindex") for o in lf["ops"]):
             lf = [f for f in loads if not any(o.get("noindex") for o in f["ops"])][0]
         kernel.append(curated_mem(rng, isa, lf, pool_data, lm) if curated else inst(rng, isa, lf, pool_data, mem=lm))
